@@ -10,6 +10,7 @@ import (
 	"encoding/json"
 	"fmt"
 	"os"
+	"os/exec"
 	"path/filepath"
 	"sort"
 	"strings"
@@ -38,8 +39,9 @@ type confDim struct {
 }
 
 func (d confDim) conf() e2e.Conf {
+	// the rate limiter is off: its 429/403/5xx penalties on the single loopback host would stretch a page of the grid to minutes
 	return e2e.Conf{Job: "c02b", Workers: d.workers, MaxConcurrentAssets: d.assets, MaxRetry: maxRetry, WARCPoolSize: d.pool, WARCOnDisk: d.onDisk,
-		DisableLocalDedupe: !d.dedupe, WARCDedupeSize: dedupeSize}
+		DisableLocalDedupe: !d.dedupe, WARCDedupeSize: dedupeSize, DisableRateLimit: true}
 }
 
 func (d confDim) name() string {
@@ -117,7 +119,8 @@ type verdict struct {
 	Revisits   int         `json:"revisits"`
 	Records    int         `json:"records"`
 	Unfetched  int         `json:"unfetched"`
-	Classes    []string    `json:"classes"` // distinct (status, kind, enc, framing, size) seen on the wire
+	Incomplete []string    `json:"incomplete,omitempty"` // responses the origin could not send completely (the client closed the connection)
+	Classes    []string    `json:"classes"`              // distinct (status, kind, enc, framing, size) seen on the wire
 	WallS      float64     `json:"wall_s"`
 	Violations []violation `json:"violations,omitempty"`
 	Anomaly    string      `json:"anomaly,omitempty"` // the case could not be judged
@@ -150,8 +153,8 @@ func rejectedBy(conf e2e.Conf, e e2e.Exchange) bool {
 	return false
 }
 
-func runCase(cs caseSpec, grid []item, keep bool) verdict {
-	v := verdict{Case: cs.Name}
+func runCase(cs caseSpec, grid []item, keep bool) (v verdict) {
+	v = verdict{Case: cs.Name}
 	o, err := e2e.NewOrigin("127.0.0.2")
 	if err != nil {
 		hkit.EngineError("origin: %v", err)
@@ -178,9 +181,15 @@ func runCase(cs caseSpec, grid []item, keep bool) verdict {
 	if err != nil {
 		hkit.EngineError("%v", err)
 	}
-	if !keep {
-		defer os.RemoveAll(dir)
-	}
+	defer func() {
+		if d := os.Getenv("E2E_DEBUG_DIR"); d != "" && (len(v.Violations) > 0 || v.Anomaly != "" || os.Getenv("E2E_DEBUG_ALL") != "") {
+			os.MkdirAll(d, 0o755)
+			exec.Command("cp", "-r", dir, d).Run()
+		}
+		if !keep {
+			os.RemoveAll(dir)
+		}
+	}()
 	conf := cs.Conf
 	conf.InputSeeds = []string{o.URL(seed)}
 	spec := &e2e.ChildSpec{Dir: dir, Conf: conf, Mode: "drain", ExpectFinished: 1, DeadlineS: 55,
@@ -246,13 +255,14 @@ func main() {
 	}
 	res := hkit.Jobs(a, len(cs), func(j int) any { return runCase(cs[j], grid, false) })
 	var (
-		classes                                         = map[string]bool{}
-		exchanges, accepted, rejected, revisits, recs   int
-		unfetched                                       int
-		samples                                         []any
-		seen                                            = map[string]bool{}
-		anomalies                                       []string
-		per                                             []map[string]any
+		classes                                       = map[string]bool{}
+		exchanges, accepted, rejected, revisits, recs int
+		unfetched                                     int
+		incomplete                                    []string
+		samples                                       []any
+		seen                                          = map[string]bool{}
+		anomalies                                     []string
+		per                                           []map[string]any
 	)
 	for j, b := range res {
 		var v verdict
@@ -276,6 +286,7 @@ func main() {
 		revisits += v.Revisits
 		recs += v.Records
 		unfetched += v.Unfetched
+		incomplete = append(incomplete, v.Incomplete...)
 		per = append(per, map[string]any{"case": v.Case, "exchanges": v.Exchanges, "accepted": v.Accepted, "rejected": v.Rejected, "revisits": v.Revisits, "unfetched": v.Unfetched, "wall_s": v.WallS})
 		if len(samples) < 4 && v.Sample != nil {
 			samples = append(samples, v.Sample)
@@ -295,7 +306,7 @@ func main() {
 		"evaluations": exchanges, "distinct_nontrivial": len(classes),
 		"rule":    "one evaluation = one response sent by the origin and judged against the WARC snapshot; distinct = distinct (status, kind, content-encoding, framing, size boundary) classes among them; every one is non-trivial (a full HTTP fetch through the real WARC-writing client)",
 		"samples": samples, "exhaustive": len(anomalies) == 0, "cases": len(cs), "configurations": len(configs(a.Tier)), "grid_items": len(grid),
-		"accepted_responses": accepted, "rejected_responses": rejected, "revisit_records": revisits, "records_read": recs, "responses_never_requested": unfetched,
+		"accepted_responses": accepted, "rejected_responses": rejected, "revisit_records": revisits, "records_read": recs, "responses_never_requested": unfetched, "responses_cut_by_the_client": incomplete,
 		"per_case": per, "anomalies": anomalies,
 		"explanation": "part B: boundary grid (sizes x kinds x encodings x framings x statuses) crawled by the real pipeline in a child process per case; snapshot of the WARC file sizes at the instant before the finisher's send to the source; files read up to the snapshot by an independent reader (harness/lib/e2e/warcread)",
 	}, []string{
